@@ -10,12 +10,12 @@ EXPLANATION = (
     "positional-only / positional / keyword-only, required / optional, colliding names, type[...] positions) and every emitted entry point is "
     "executed on opaque argument objects for every call shape that some method accepts; the contract Spec_D is computed from the method set: exactly "
     "one table lookup keyed by the lookup types of exactly the supplied arguments, exactly one call with exactly the supplied positionals (in order) "
-    "and keywords, no placeholder, result returned unchanged, no exception handling in the emitted code. The emitted code may only test `is MISSING` "
+    "and keywords, no placeholder, result returned unchanged, no exception handling in the emitted code; named positionals supplied by keyword are either refused at binding time or looked up and passed at their parameter. The emitted code may only test `is MISSING` "
     "and apply type/subtler_type to a parameter, so one run per presence pattern covers all argument values: universal over inputs, bounded over "
     "shapes (hence 'other', not 'proof'). Plus MultiTypeMap.__missing__ on the empty tuple (U) and the arity/keyword filter inside the bounded "
-    "end-to-end resolution run. Known findings: F-kwdrop, F-empty, F-reserved-names."
+    "end-to-end resolution run. Known findings: F-empty, F-reserved-names (open); F-kwdrop, F-kwgap (fixed, witnesses replayed)."
 )
-ASSUMPTIONS = ["positional parameters are passed positionally, keyword-only ones by name (passing positionals by keyword is not enumerated)"]
+ASSUMPTIONS = ["call shapes: positional parameters passed positionally or (named ones) by keyword, keyword-only ones by name; **kwargs-style calls with names no method declares are not enumerated"]
 TRUSTED = ["compile/exec of emitted text", "CPython argument binding as modelled by the interpreter's binder"]
 BOUNDS = {"shapes": "native/gen_dispatch.py: 1-3 methods, <=3 positional, <=2 keyword-only, with/without self (thorough: a 4th positional, a 3rd keyword)"}
 
@@ -44,7 +44,7 @@ def concretise(obname, detail, task_result, native):
 
 MANIFEST = dict(
     category="other",
-    text="Every entry point emitted by the real generator for an enumerated family of method-set shapes is verified against a contract computed from the method set, for all argument values (opaque execution); universal over inputs, bounded over shapes; three open findings (dropped keyword, all-optional zero-argument call, reserved parameter names).",
+    text="Every entry point emitted by the real generator for an enumerated family of method-set shapes is verified against a contract computed from the method set, for all argument values (opaque execution); universal over inputs, bounded over shapes; two open findings (all-optional zero-argument call, reserved parameter names), two repaired ones (keywords dropped on the early-exit branches).",
     design_ref="6/C03",
     note="Bounded over shapes (55 distinct entry points in the quick tier). Trusted: exec of emitted text behaves as the text, argument binding model. Results/exceptions of the method itself pass through because the emitted code has no try and returns the call's value.",
     technique="contract-based verification of generated code per instance (pyvc opaque symbolic execution of the emitted AST against Spec_D)",
